@@ -5,7 +5,7 @@
    succeeds on the original. *)
 From Coq Require Import List Arith Bool Lia.
 From PG Require Import Base.ListSet Base.Closure Graph.MGraph Graph.MSep Graph.Rename Graph.RenameMore C15.Equiv_Util
-  C04.Dag C04.Model C05.Model C05.Spec C05.Proofs.
+  C04.Dag C04.DagFacts C04.Model C05.Model C05.Spec C05.Proofs.
 Import ListNotations.
 
 Section Inj.
@@ -78,8 +78,8 @@ Qed.
 Theorem meq_rmap d1 d2 : meq (rmap f d1) (rmap f d2) <-> meq d1 d2.
 Proof.
   unfold meq. simpl V. rewrite (set_eq_map f finj). split; intros [H1 [H2 H3]]; (split; [exact H1|split]).
-  - intros a b. rewrite <- !Padj_rmap. apply H2.
-  - intros a c b. rewrite <- !Vstr_rmap. apply H3.
+  - intros a b. rewrite <- (Padj_rmap d1 a b), <- (Padj_rmap d2 a b). apply H2.
+  - intros a c b. rewrite <- (Vstr_rmap d1 a c b), <- (Vstr_rmap d2 a c b). apply H3.
   - intros a' b'. split; intros H; apply Padj_rmap_ex in H; destruct H as [a [b [-> [-> H]]]]; apply Padj_rmap; apply H2; exact H.
   - intros a' c' b'. split; intros H; apply Vstr_rmap_ex in H; destruct H as [a [c [b [-> [-> [-> H]]]]]];
       apply Vstr_rmap; apply H3; exact H.
@@ -89,9 +89,9 @@ Theorem consistent_ext_rmap p d : consistent_ext (rmap f p) (rmap f d) <-> consi
 Proof.
   unfold consistent_ext. rewrite is_dag_rmap. simpl V. rewrite (set_eq_map f finj).
   split; intros [H1 [H2 [H3 [H4 H5]]]]; (split; [exact H1|split; [exact H2|split; [|split]]]).
-  - intros a b. rewrite <- !Padj_rmap. apply H3.
+  - intros a b. rewrite <- (Padj_rmap d a b), <- (Padj_rmap p a b). apply H3.
   - intros [a b] Hab. apply (In_pmap_inj f finj). apply H4. apply (In_pmap_inj f finj). exact Hab.
-  - intros a c b. rewrite <- !Vstr_rmap. apply H5.
+  - intros a c b. rewrite <- (Vstr_rmap d a c b), <- (Vstr_rmap p a c b). apply H5.
   - intros a' b'. split; intros H; apply Padj_rmap_ex in H; destruct H as [a [b [-> [-> H]]]]; apply Padj_rmap; apply H3; exact H.
   - intros [a' b'] Hab. simpl in Hab. apply In_pmap_ex in Hab. destruct Hab as [a [b [E Hab]]]. inversion E; subst.
     simpl. apply (In_pmap_inj f finj). apply H4. exact Hab.
@@ -144,9 +144,9 @@ Theorem pdag_model_rmap_some p d' : wf_pdag p -> pdag_model (rmap f p) = Some d'
 Proof.
   intros Hw E. pose proof (proj2 (wf_pdag_rmap p) Hw) as Hw'.
   pose proof (pdag_sound_proof (rmap f p) d' Hw' E) as H. pose proof H as [Hd [[Hv _] _]]. simpl in Hv.
-  destruct (dag_pullback (V p) d' Hd Hv) as [d0 ->]. apply consistent_ext_rmap in H.
+  destruct (dag_pullback (V p) d' Hd Hv) as [d0 ->]. apply (proj1 (consistent_ext_rmap p d0)) in H.
   destruct (pdag_model p) as [d|] eqn:E2.
-  - exists d0, d. repeat split; auto. apply pdag_sound_proof; assumption.
+  - exists d0, d. split; [reflexivity|]. split; [exact H|]. split; [reflexivity|]. apply pdag_sound_proof; assumption.
   - exfalso. apply (pdag_complete_proof p Hw E2). exists d0. exact H.
 Qed.
 End Inj.
@@ -259,8 +259,6 @@ Example pdag_rename_example :
   let f := fun v => 3 * v + 7 in
   injective f /\ wf_pdag p /\ pdag_model p <> None /\ pdag_model (rmap f p) <> None.
 Proof.
-  simpl. split; [intros a b H; lia|]. split.
-  - unfold wf_pdag, edges_in. simpl. repeat split; intros; repeat (match goal with H : _ \/ _ |- _ => destruct H end);
-      try match goal with H : (_, _) = (_, _) |- _ => inversion H; subst end; try lia; try tauto; try discriminate; try congruence.
-  - split; vm_compute; discriminate.
+  simpl. split; [intros a b H; lia|]. split; [apply wf_pdagb_spec; vm_compute; reflexivity|].
+  split; vm_compute; discriminate.
 Qed.
